@@ -55,7 +55,9 @@ def parse_impl(text, esm_class, tlv):
 
 
 def rand_date(rng):
-    return datetime(rng.randint(1969, 2068), rng.randint(1, 12), rng.randint(1, 28), rng.randint(0, 23), rng.randint(0, 59))
+    # dates carry seconds (and microseconds): the receipt format keeps them to the minute, truncated
+    return datetime(rng.randint(1969, 2068), rng.randint(1, 12), rng.choice([1, 15, 28, 28]), rng.choice([0, 12, 23, 23]), rng.choice([0, 30, 59, 59]),
+                    rng.choice([0, 0, 29, 30, 42, 59]), rng.choice([0, 0, 999999]))
 
 
 def gen_receipts(ctx, n):
@@ -115,6 +117,9 @@ def recase(rng, text):
 def oracle(DeliverSm, d, text, tlv, parsed, extra=None):
     """parse(text built from d) == d (text up to trailing spaces; id from TLV when empty)."""
     want = dict(d)
+    for k in ('submit date', 'done date'):
+        if isinstance(want.get(k), datetime):
+            want[k] = want[k].replace(second=0, microsecond=0)      # 'to the minute'
     if not want['id'] and tlv is not None:
         want['id'] = tlv
     got = dict(parsed)
